@@ -174,7 +174,9 @@ func genProcStmts(r *rand.Rand, depth int) string {
 	return strings.Join(parts, " ")
 }
 
-var regexBodies = []string{"a", "ab|c", "a*", "(a|b)+", "[a-c]", "a{2,3}", "\\d+", "a?b", "[^a]", "(?<n>a)", ".", "^a$", "a{2}", "\\w\\s"}
+var regexBodies = []string{"a", "ab|c", "a*", "(a|b)+", "[a-c]", "a{2,3}", "\\d+", "a?b", "[^a]", "(?<n>a)", ".", "^a$", "a{2}", "\\w\\s",
+	// every escape the sub-parser knows, alone and combined: what it desugars to reaches the generator
+	"\\b", "\\B", "\\w", "\\W", "\\s", "\\S", "\\d", "\\D", "a\\Bb", "\\ba+\\b", "[^\\d]", "(\\w+)\\s\\1", "\\B|\\b", "(?:\\B)+", "\\t\\n\\r", "\\k<n>"}
 
 func genValid(r *rand.Rand) GenProgram {
 	cfg := fullCfg
@@ -259,7 +261,8 @@ func randomBytes(r *rand.Rand, n int) string {
 }
 
 func regexSoup(r *rand.Rand) string {
-	atoms := []string{"a", "b", "(", ")", "[", "]", "{", "}", "|", "*", "+", "?", "\\", "d", "k", "<", ">", "^", "$", ".", "-", "1", ",", ":", "=", "!", "{1", "{1,", "{1,2", "}"}
+	atoms := []string{"a", "b", "(", ")", "[", "]", "{", "}", "|", "*", "+", "?", "\\", "d", "k", "<", ">", "^", "$", ".", "-", "1", ",", ":", "=", "!", "{1", "{1,", "{1,2", "}",
+		"\\b", "\\B", "\\w", "\\W", "\\s", "\\S", "\\D", "\\1", "B", "b", "w"}
 	n := r.Intn(7)
 	var b strings.Builder
 	for i := 0; i < n; i++ {
